@@ -49,6 +49,7 @@ def default_params():
         gets="early",               # deferred API: when get_*() are requested: early | late | tape | after (closed)
         third=None,                 # None | "before" | "after": a raw third client claims the nameplate
         hs_fail=[0, 0],             # budget of reconnections whose WebSocket negotiation fails
+        hs_slow=[False, False],     # TCP connection and WebSocket negotiation are separate scheduler events
         extra_msg_gets=0,           # deferred API: additional concurrently outstanding get_message() chains
         w_progress=10, w_app=6, w_drop=1, w_adv=2,
         settle_after_close=True,
@@ -285,6 +286,7 @@ def _run(P, rec, W, tape, on_step, setup, at_stable, adversary=None, on_idle=Non
         w = W.create(P["appids"][i], **kw)
         w._sim_svc.refuse = P["refuse"][i]
         w._sim_svc.hs_fail = P["hs_fail"][i]
+        w._sim_svc.hs_slow = P["hs_slow"][i]
         ws.append(w)
         _install_trace(rec, i, w)
     def on_deliver(c, payload):
@@ -366,6 +368,10 @@ def _run(P, rec, W, tape, on_step, setup, at_stable, adversary=None, on_idle=Non
         if k == "send":
             return nsent[it[1]] == it[2]
         if k == "close":
+            if it[2] == "halfopen":
+                # while the WebSocket negotiation of a connection of this side is in flight
+                c_ = ws[it[1]]._sim_svc.conn
+                return c_ is not None and getattr(c_, "half_open", False)
             if it[2] is not None and not rec.has(it[1], it[2]):
                 return False
             return True
